@@ -497,10 +497,12 @@ func (hs *serverHandshakeState) checkForResumption() bool {
 		}
 	}
 
-	if hs.sessionState == nil || hs.sessionState.vers > hs.clientHello.vers {
+	if hs.sessionState == nil {
 		return false
 	}
-	if vers, ok := c.config.mutualVersion(hs.sessionState.vers); !ok || vers != hs.sessionState.vers {
+	// Never resume a session for a different TLS version: c.vers is the version negotiated
+	// for this hello (already inside the configured range and allowed by the grade).
+	if c.vers != hs.sessionState.vers {
 		return false
 	}
 
